@@ -161,6 +161,8 @@ def merge_item(relpath, path, els, renames):
                 P.append(t)
                 owner.append((k, True))
     changed = P != rtext
+    local_renames = {}
+    rename_is_field = {}
     # map old plain index -> new index (for positions 0..len(P))
     if not changed:
         pos_map = list(range(len(P) + 1))
@@ -181,6 +183,23 @@ def merge_item(relpath, path, els, renames):
         for i in range(len(P)):
             if pos_map[i] is None:
                 pos_map[i] = pos_map[i - 1] if i else 0
+        # a consistently renamed identifier (local variable, parameter): carry the rename into the annotations of this
+        # item, so that a harmless rename does not leave the contracts talking about a name that no longer exists
+        cand = {}
+        after_dot = {}
+        for tag, i1, i2, j1, j2 in sm.get_opcodes():
+            if tag == "replace" and (i2 - i1) == (j2 - j1):
+                for d in range(i2 - i1):
+                    o, nw = P[i1 + d], rtext[j1 + d]
+                    if o != nw and _IDENT.match(o) and _IDENT.match(nw) and o not in _KEYWORDS and nw not in _KEYWORDS:
+                        cand.setdefault(o, set()).add(nw)
+                        after_dot.setdefault(o, set()).add(i1 + d > 0 and P[i1 + d - 1] == ".")
+        for o, news in cand.items():
+            if len(news) == 1:
+                nw = next(iter(news))
+                if o not in rtext and nw not in P and len(after_dot[o]) == 1:
+                    local_renames[o] = nw
+                    rename_is_field[o] = next(iter(after_dot[o]))
 
     # build insertion table over new positions
     ins_at = {}      # new index -> list of texts inserted before that token
@@ -188,11 +207,18 @@ def merge_item(relpath, path, els, renames):
     n_hunks = 0
     hunks = []
     p = 0            # running plain index
+    def _ren(txt):
+        for o, nw in local_renames.items():
+            if rename_is_field[o]:   # a field / method name: only where it is accessed through `.`
+                txt = re.sub(r"(?<=\.)%s(?![A-Za-z0-9_])" % re.escape(o), nw, txt)
+            else:                    # a local or a parameter: never after `.`
+                txt = re.sub(r"(?<![A-Za-z0-9_.])%s(?![A-Za-z0-9_])" % re.escape(o), nw, txt)
+        return txt
     for k, el in enumerate(els):
         if el[0] == "tok":
             p += 1
         elif el[0] == "ins":
-            ins_at.setdefault(pos_map[p], []).append(el[1])
+            ins_at.setdefault(pos_map[p], []).append(_ren(el[1]))
         else:
             n = len(el[1])
             if not all(matched[p:p + n]) or (n and pos_map[p + n - 1] - pos_map[p] != n - 1):
@@ -202,7 +228,7 @@ def merge_item(relpath, path, els, renames):
             j1 = pos_map[p]
             for d in range(n):
                 skip.add(j1 + d)
-            ins_at.setdefault(j1, []).append(el[2])
+            ins_at.setdefault(j1, []).append(_ren(el[2]))
             n_hunks += 1
             hunks.append({"from": " ".join(el[1]), "to": el[2].strip()})
             p += n
@@ -239,10 +265,13 @@ def merge_item(relpath, path, els, renames):
         "hunks": hunks,
         "renamed_tokens": n_renamed,
         "differs_from_template": changed,
+        "local_renames": local_renames,
     }
     return "".join(out), info
 
 
+_IDENT = re.compile(r"^[A-Za-z_][A-Za-z0-9_]*$")
+_KEYWORDS = set("as break const continue crate else enum extern false fn for if impl in let loop match mod move mut pub ref return self Self static struct super trait true type unsafe use where while async await dyn".split())
 _ITEM = re.compile(r"^//@item\s+(\S+)\s+::\s+(.*?)\s*((?:\s+\w+=\S+)*)\s*$")
 
 
